@@ -100,6 +100,12 @@ def padded_env_docs():
             for b in bodies:
                 out.append('\\begin{%s%s%s}%s\\end{%s}' % (lp, n, rp, b, n))
                 out.append('\\begin{%s%s%s}%s\\end{%s%s%s}' % (lp, n, rp, b, lp, n, rp))
+    # name groups that are more than one token (the reader accepts any brace group as a name): blanks BETWEEN the
+    # pieces belong to the name
+    for n in ('\\a \\b', '$a$ $b$', 'a{b}', 'a[b', 'a\\x', 'a b', '\\a\n\\b', 'x {y} z', '{a} {b}'):
+        for b in ('x', '\\item y', ' '):
+            out.append('\\begin{%s}%s\\end{%s}' % (n, b, n))
+            out.append('p\\begin{%s}[o]{q}%s\\end{%s}r' % (n, b, n))
     return out
 
 
